@@ -25,6 +25,7 @@ type verifDB struct {
 	calls     int
 	byDevID   agd.DeviceID
 	byHumanID agd.HumanIDLower
+	byProfile agd.ProfileID
 	byLinked  bool
 	byDedic   bool
 	linkedIP  netip.Addr
@@ -67,8 +68,8 @@ func (db *verifDB) ProfileByDeviceID(_ context.Context, id agd.DeviceID) (*agd.P
 	db.byDevID = id
 	return db.answer()
 }
-func (db *verifDB) ProfileByHumanID(_ context.Context, _ agd.ProfileID, h agd.HumanIDLower) (*agd.Profile, *agd.Device, error) {
-	db.byHumanID = h
+func (db *verifDB) ProfileByHumanID(_ context.Context, p agd.ProfileID, h agd.HumanIDLower) (*agd.Profile, *agd.Device, error) {
+	db.byHumanID, db.byProfile = h, p
 	return db.answer()
 }
 func (db *verifDB) ProfileByLinkedIP(_ context.Context, ip netip.Addr) (*agd.Profile, *agd.Device, error) {
